@@ -32,8 +32,15 @@ type seqCase struct {
 }
 
 func newSeqCase(r *vk.Run, t *tally, stream string, idx int, clients bool, targets []string, init ...*traits.ElectricMode) *seqCase {
+	return newSeqCasePlaceholder(r, t, stream, idx, clients, targets, "", init...)
+}
+
+func newSeqCasePlaceholder(r *vk.Run, t *tally, stream string, idx int, clients bool, targets []string, placeholder string, init ...*traits.ElectricMode) *seqCase {
 	c := &seqCase{r: r, t: t, stream: stream, idx: idx, clk: newManualClock(), targets: targets}
-	c.w = newWorld(c.clk, uint64(idx)*0x9E3779B97F4A7C15+r.Seed, clients, init...)
+	if placeholder != "" {
+		c.init = append(c.init, "placeholder active mode id="+placeholder)
+	}
+	c.w = newWorldPlaceholder(c.clk, uint64(idx)*0x9E3779B97F4A7C15+r.Seed, clients, placeholder, init...)
 	c.pre = c.w.observe()
 	c.ref = &refTable{modes: map[string]bool{}}
 	for _, m := range init {
@@ -574,7 +581,24 @@ func randomSequences(r *vk.Run) {
 		if r.Only == "" && !r.Guard(crashKey, map[string]any{"stream": "rand", "case": i}) {
 			continue
 		}
-		c := newSeqCase(r, t, "rand-"+doorMode, i, clients, randTargets, init...)
+		// a third of the sequences start with a named placeholder as active mode (a fixed id that no initial mode has)
+		placeholder := ""
+		if rng.Chance(1, 3) {
+			for _, k := range rng.Perm(len(fixedIDs)) {
+				used := false
+				for _, m := range init {
+					used = used || m.Id == fixedIDs[k]
+				}
+				if !used {
+					placeholder = fixedIDs[k]
+					break
+				}
+			}
+		}
+		c := newSeqCasePlaceholder(r, t, "rand-"+doorMode, i, clients, randTargets, placeholder, init...)
+		if placeholder != "" {
+			t.count("sequences-with-named-placeholder")
+		}
 		var msubs []*modesSub
 		var asubs []*activeSub
 		subAt := map[int]bool{rng.Intn(steps): true, rng.Intn(steps / 4): true}
@@ -596,6 +620,16 @@ func randomSequences(r *vk.Run) {
 				}
 			}
 			o := genOp(rng, doorMode, randTargets, true)
+			if placeholder != "" && k < 3 && rng.Bool() {
+				// address the placeholder's id while it is (probably) still the active mode
+				kinds := []string{"set-active", "change-active", "delete", "update"}
+				o = op{Kind: kinds[rng.Intn(len(kinds))], Target: placeholder, Mask: "title", AM: rng.Bool(), Door: "model"}
+				if doorMode != "model" && hasRPC(o.Kind) {
+					o.Door = "server"
+				}
+				o = o.cached()
+				t.count("ops-addressing-the-placeholder-id")
+			}
 			adv := time.Duration(rng.Range(1, 5000))*time.Millisecond + time.Duration(rng.Intn(1000))*time.Nanosecond
 			if rng.Chance(1, 3) {
 				adv = time.Duration(rng.Range(1, 5000)) * time.Second // whole seconds are clock readings too
